@@ -31,6 +31,7 @@ type reaction struct {
 	pieces    []piece
 	eof       bool
 	writeFail bool
+	stall     int // > 0: the Write accepts this many bytes, then the write deadline passes (partial write + timeout error)
 }
 type sessionCase struct {
 	key, user, pass string
@@ -50,6 +51,9 @@ func parseReaction(s string) reaction {
 		return reaction{}
 	case s == "wf":
 		return reaction{writeFail: true}
+	case strings.HasPrefix(s, "ws"):
+		k, _ := strconv.Atoi(s[2:])
+		return reaction{writeFail: true, stall: k}
 	}
 	var r reaction
 	parts := strings.Split(s, ":")
@@ -69,6 +73,9 @@ func parseReaction(s string) reaction {
 }
 
 func reactionStr(r reaction) string {
+	if r.writeFail && r.stall > 0 {
+		return fmt.Sprintf("ws%d", r.stall)
+	}
 	if r.writeFail {
 		return "wf"
 	}
@@ -240,6 +247,15 @@ func (c *scriptConn) Write(p []byte) (int, error) {
 	}
 	r := c.script[0]
 	c.script = c.script[1:]
+	if r.writeFail && r.stall > 0 {
+		// the peer drains a few bytes, then the armed write deadline passes: net.Conn reports the progress and a timeout
+		n := r.stall
+		if n >= len(p) {
+			n = len(p) - 1
+		}
+		c.t.add(fmt.Sprintf("WRITEFAIL %d", c.j))
+		return n, &net.OpError{Op: "write", Net: "tcp", Err: os.ErrDeadlineExceeded}
+	}
 	if r.writeFail {
 		c.t.add(fmt.Sprintf("WRITEFAIL %d", c.j))
 		return 0, &net.OpError{Op: "write", Net: "tcp", Err: io.ErrClosedPipe}
